@@ -1,8 +1,9 @@
 (* C09 — network-wide under faults: only f+1-checked work is transmitted, once per node.
    Property theorems only; proofs live in Proofs/NetworkProofs.v (composition of the Outcome model
    with per-node state) and in the C01/C04/C06 developments it builds on. *)
-From Verif Require Import Base.Util Model.Types Model.Outcome Model.Network
-  Proofs.PerformablesProofs Proofs.NetworkProofs.
+From Verif Require Import Base.Util Model.Types Model.Outcome Model.Validate Model.Network
+  Proofs.PerformablesProofs Proofs.SurfacedProofs Proofs.OutcomeProofs Proofs.NetworkProofs.
+From Verif Require Model.Metadata Model.ProposalQueue Model.ResultStore Proofs.ProposalQueueProofs Proofs.ResultStoreProofs.
 Open Scope N_scope.
 
 (* Safety, for every network size, every f, every schedule of
@@ -55,7 +56,7 @@ Print Assumptions C09_not_agreed_without_honest_holder.
 (* Liveness, one round, partial: a result that f+1 valid observations of the round contain is agreed,
    or another quorum result for its work id is, or it is cut by the cap by results sorting strictly
    before it (C01 completeness).  "Within a bounded number of rounds" for more than `cap` candidates
-   depends on the per-round shuffle and is NOT claimed. *)
+   depends on the per-round shuffle and is NOT claimed.  This is the last link of the chain below. *)
 Theorem C09_live_partial :
   forall (uid : result -> N) (shuf : N -> N) pi_u,
     (forall a b, uid a = uid b -> a = b) -> (forall v, Permutation (pi_u v) v) ->
@@ -67,6 +68,67 @@ Theorem C09_live_partial :
           forall y, In y (pset shuf pi_u thr limit (fold_left (vadd uid) obs [])) -> shuf (r_wid y) < shuf (r_wid r'))).
 Proof. intros. eapply agreed_complete_strict; eauto. Qed.
 Print Assumptions C09_live_partial.
+
+(* Liveness over the rounds of one cycle (conditional upkeeps and recovered logs go through all of it,
+   fresh log triggers only through the last step).  The chain, link by link, each link for every input:
+
+     round k    C09_live_surfaced        a unit of work proposed by ONE valid observation, not in the
+                                         retained history and not agreed in this round, is surfaced
+                                         and stamped with the block f+1 observations share
+     node       C09_live_coordinated_is_dequeued   every node hands the coordinated proposal to its
+                                         final flow at the next tick: enqueueing a proposal on a higher
+                                         block than the record already there resets the record (its
+                                         `removed` flag included) and the next Dequeue returns it
+     node       C09_live_checked_is_viewed  the eligible result the pipeline returns is staged and
+                                         viewed until removed / expired (the observation then takes the
+                                         canonical prefix: C08_canonical_prefix)
+     round k+2  C09_live_partial         f+1 valid observations containing it => agreed (or capped)
+
+   The links live in three vocabularies (Outcome, ProposalQueue, ResultStore models) and are NOT
+   composed into one Gallina function; that the real nodes go through the whole chain within the
+   bound is decided by K09_live on every run (families cond-...), whose obligations are recorded only
+   where the property's premise holds. *)
+Theorem C09_live_surfaced :
+  forall utg wg (uid : result -> N) (shuf : N -> N) pi_u (pi_b : bvotes -> bvotes),
+    (forall v, Permutation (pi_b v) v) ->
+  forall tp tb lim prev l p, (1 <= l_rounds lim)%nat ->
+    let obs := valid_obs_list (valid_obs utg wg) l in
+    let lq := latest_quorum_block true pi_b tb (fold_left badd obs []) in
+    let out := outcome_of uid shuf (valid_obs utg wg) true pi_u pi_b tp tb lim prev l in
+    snd lq = true -> In p (flat_map o_props obs) ->
+    ~ In (p_wid p) (all_wids (oc_surfaced prev)) -> ~ In (p_wid p) (map r_wid (oc_agreed out)) ->
+    exists q, p_wid q = p_wid p /\ t_num (p_trig q) = bk_num (fst lq) /\ t_hash (p_trig q) = bk_hash (fst lq) /\
+      (In q (hd [] (oc_surfaced out)) \/
+       (length (hd [] (oc_surfaced out)) = l_perround lim /\
+        forall y, In y (hd [] (oc_surfaced out)) -> shuf (p_wid y) <= shuf (p_wid q))).
+Proof. intros. eapply outcome_surfaced_live; eauto. Qed.
+Print Assumptions C09_live_surfaced.
+
+Example C09_live_surfaced_nonvacuous :
+  let bv := [(mkBK 100 7, 2%nat); (mkBK 99 5, 3%nat)] in
+  let p := mkProp 5 (mkTrig 90 3 None) 11 in
+  snd (latest_quorum_block true id_perm 2 bv) = true /\
+  hd [] (cset (fun w => w) true id_perm 2 20 50 bv [p] [] [[mkProp 6 (mkTrig 80 2 None) 12]])
+    = [mkProp 5 (mkTrig 100 7 None) 11].
+Proof. vm_compute. split; reflexivity. Qed.
+
+Theorem C09_live_coordinated_is_dequeued :
+  forall exp pi typ n t t' q (p : Metadata.prop),
+    NoDup (map fst q) -> Permutation (pi (ProposalQueue.enqueue1 t q p)) (ProposalQueue.enqueue1 t q p) ->
+    (forall r, ProposalQueue.qget (Metadata.p_wid p) q = Some r ->
+               Metadata.p_blk (ProposalQueue.q_prop r) < Metadata.p_blk p) ->
+    (t' - t <= exp)%Z -> Metadata.p_typ p = typ -> (S (length q) <= n)%nat ->
+    In (ProposalQueue.mkQRec p false t) (snd (ProposalQueue.dequeue exp pi typ n t' (ProposalQueue.enqueue1 t q p))).
+Proof. exact ProposalQueueProofs.supersede. Qed.
+Print Assumptions C09_live_coordinated_is_dequeued.
+
+Theorem C09_live_checked_is_viewed :
+  forall ttl pi pre t,
+    (0 <= ttl)%Z -> ResultStoreProofs.time_sorted (ResultStore.forget pre ++ [(t, ResultStore.View)]) ->
+    Permutation (pi (ResultStore.run true ttl (ResultStore.forget pre))) (ResultStore.run true ttl (ResultStore.forget pre)) ->
+    ResultStore.view_kept_at ttl pre t (ResultStore.view ttl pi t (ResultStore.run true ttl (ResultStore.forget pre))).
+Proof. exact ResultStoreProofs.view_kept. Qed.
+Print Assumptions C09_live_checked_is_viewed.
 
 (* "No honest node is ever willing to transmit two different reports for the same unit of work at
    once" is REFUTED for the network as a whole (finding F09): the coordinator keys on (work id, check
@@ -85,7 +147,7 @@ Proof.
              mkNRound [(false, [0; 1; 2]%nat); (true, [0; 1; 2]%nat)] [0; 1; 2]%nat [[0; 1; 2]%nat] []]
             [(0%nat, [0; 1]%nat); (1%nat, [0; 1; 2]%nat)]
             [(0%nat, [0; 1]%nat); (0%nat, [0; 1; 2]%nat)]
-            [(0%nat, [[0; 1]%nat; [0; 1; 2]%nat])]).
+            [(0%nat, [[0; 1]%nat; [0; 1; 2]%nat])] []).
   vm_compute. repeat split; reflexivity.
 Qed.
 Print Assumptions C09_single_refuted.
